@@ -334,10 +334,12 @@ func (s MsgServer) UnbondedOracle(c context.Context, msg *types.MsgUnbondedOracl
 	}
 	balances := s.bankKeeper.GetAllBalances(ctx, delegateAddr)
 	slashAmount := types.NewDelegateAmount(oracle.GetSlashAmount(s.GetSlashFraction(ctx)))
+	// a validator slash may have returned less than the recorded stake: the penalty is never more
+	// than what came back, otherwise the remaining stake could not be withdrawn at all
+	if held := balances.AmountOf(slashAmount.Denom); slashAmount.Amount.GT(held) {
+		slashAmount.Amount = held
+	}
 	if slashAmount.IsPositive() {
-		if balances.AmountOf(slashAmount.Denom).LT(slashAmount.Amount) {
-			return nil, types.ErrInvalid.Wrapf("not sufficient slash amount")
-		}
 		if err = s.bankKeeper.SendCoinsFromAccountToModule(ctx, delegateAddr, s.moduleName, sdk.NewCoins(slashAmount)); err != nil {
 			return nil, err
 		}
